@@ -50,8 +50,8 @@ class Nist256p1Point(IPoint):
             IPoint: IPoint object
         """
         try:
-            return cls(ellipticcurve.PointJacobi.from_bytes(curve_256,
-                                                            point_bytes))
+            point = ellipticcurve.PointJacobi.from_bytes(curve_256,
+                                                         point_bytes)
         except keys.MalformedPointError as ex:
             raise ValueError("Invalid point key bytes") from ex
         # ECDSA < 0.17 doesn't have from_bytes method for PointJacobi
@@ -60,6 +60,8 @@ class Nist256p1Point(IPoint):
                 BytesUtils.ToInteger(point_bytes[:EcdsaKeysConst.POINT_COORD_BYTE_LEN]),
                 BytesUtils.ToInteger(point_bytes[EcdsaKeysConst.POINT_COORD_BYTE_LEN:])
             )
+        # PointJacobi.from_bytes doesn't check if the point lies on the curve
+        return cls.FromCoordinates(point.x(), point.y())
 
     @classmethod
     def FromCoordinates(cls,
@@ -75,6 +77,9 @@ class Nist256p1Point(IPoint):
         Returns:
             IPoint: IPoint object
         """
+        # ellipticcurve.Point only asserts (modulo p) that the point lies on the curve
+        if not (0 <= x < curve_256.p() and 0 <= y < curve_256.p() and curve_256.contains_point(x, y)):
+            raise ValueError("Invalid point coordinates")
         return cls(
             ellipticcurve.PointJacobi.from_affine(
                 ellipticcurve.Point(curve_256, x, y)
